@@ -32,6 +32,7 @@ func c15Guards(c *Ctx) {
 	c15Complement(c)
 	c15LookupSearch(c)
 	// R5 (CFList masks) is decided in c15.go (c15CFList) with the E2 evaluator.
+	c15QueriesPure(c)
 }
 
 var _ = c15CFListMasks
@@ -702,4 +703,30 @@ func derivesFromCalleeError(v ssa.Value, depth int) bool {
 		return derivesFromCalleeError(x.X, depth+1)
 	}
 	return false
+}
+
+// c15QueriesPure (R7): every Get* method of package band is a pure query: it writes nothing through the receiver, its
+// parameters or package-level variables. The channel partition the queries report is then a function of the tables at
+// the time of the call; a memo field that only some mutators invalidate cannot exist.
+func c15QueriesPure(c *Ctx) {
+	const rule = "R7.queries-pure"
+	r := c.Run
+	r.Rule(rule, "Get* methods of package band and their callees write nothing through the receiver, parameters or package-level variables (answers are functions of the current tables)")
+	info := effectsFor(c.Prog)
+	sp := c.Prog.SSAPkg("band")
+	if sp == nil {
+		r.Unknown(rule, "band", "", "package loaded", "missing")
+		return
+	}
+	n := 0
+	for _, f := range info.Funcs {
+		if f.Pkg != sp || f.Signature.Recv() == nil || f.Synthetic != "" || !strings.HasPrefix(f.Name(), "Get") {
+			continue
+		}
+		n++
+		readOnlyObligation(c, info, rule, f)
+	}
+	if n == 0 {
+		r.Unknown(rule, "band.Get*", "", "query methods found", "none")
+	}
 }
